@@ -426,7 +426,8 @@ func normalizeSetField(
 		if err := checkNoDuplicates(cfgOld, cfgVal); err != nil {
 			return err
 		}
-		return mergeConfig(opts, cfgOld, cfgVal)
+		uniteConfigs(cfgOld, cfgVal)
+		return nil
 	default:
 		return raiseDuplicateKey(cfg, name)
 	}
@@ -459,6 +460,43 @@ func checkNoDuplicates(a, b *Config) Error {
 		}
 	}
 	return nil
+}
+
+// uniteConfigs adds the settings of b, another partial definition of the same
+// namespace within one input, to a. checkNoDuplicates has made sure that no
+// setting is defined by both of them, so the result depends neither on the
+// order the two have been found in nor on the merge policy, which only
+// applies between the input and the configuration it is merged into.
+func uniteConfigs(a, b *Config) {
+	unite := func(va, vb value, ctx context, set func(value)) {
+		switch {
+		case isNil(vb):
+			if va == nil {
+				set(vb.cpy(ctx))
+			}
+		case isNil(va):
+			set(vb.cpy(ctx))
+		default:
+			uniteConfigs(va.(cfgSub).c, vb.(cfgSub).c)
+		}
+	}
+
+	parent := cfgSub{a}
+	for k, vb := range b.fields.dict() {
+		k := k
+		va, _ := a.fields.get(k)
+		unite(va, vb, context{parent: parent, field: k}, func(v value) { a.fields.set(k, v) })
+	}
+	arrA := a.fields.array()
+	for i, vb := range b.fields.array() {
+		i := i
+		var va value
+		if i < len(arrA) {
+			va = arrA[i]
+		}
+		ctx := context{parent: parent, field: fmt.Sprintf("%d", i)}
+		unite(va, vb, ctx, func(v value) { a.fields.setAt(i, parent, v) })
+	}
 }
 
 func normalizeStructValue(opts *options, ctx context, from reflect.Value) (value, Error) {
